@@ -115,6 +115,20 @@ def bounded_pipelines(tier, seed):
             got, exp = repr(e), 'no error'
         if got != exp:
             failures.append({'key': 'pipeline', 'input': 'slice%r' % (args,), 'observed': repr(got)[:150], 'expected': repr(exp)[:150], 'replay_code': None})
+    # the sentinel given to Iter(...) ends the stream whichever stages are chained after it
+    for name in sorted(stages):
+        if name in listy:
+            continue
+        cases += 1
+        data = [1, 2, 3, None, 5, 6]
+        try:
+            got = list(glom(data, stages[name][0](Iter(sentinel=None))))
+        except Exception as e:
+            got = 'raised %r (an item after the sentinel reached the stage)' % (e,)
+        exp = list(stages[name][1](iter([1, 2, 3])))
+        if got != exp:
+            failures.append({'key': 'pipeline', 'input': 'Iter(sentinel=None).%s(...) on %r' % (name, data), 'observed': repr(got)[:150], 'expected': repr(exp)[:150],
+                             'replay_code': None})
     # a spec object is a description, not a run: applying the same spec again (to another target) starts every stage afresh
     for name in sorted(stages):
         cases += 1
